@@ -32,6 +32,8 @@ def bits(port, n):
 def run(chk):
     prog = cc.program("A")
     names = cc.Names(prog)
+    _KB.clear()
+    _KB["prog"], _KB["names"] = prog, names
     chk.rule("T-TABLE", "device reached per (configuration, address) == decode cubes of the statement where exactly one device is selected")
     chk.rule("T-GUARD", "extender called only under its own extends_port(port) with the same port, and pre-empts all devices")
     chk.rule("T-BITS", "ULA read row selection / AND of matrices / EAR bit; ULA write border, MIC, speaker bits")
@@ -421,6 +423,9 @@ def classify(chk, prog, names, mk, r, meth, key, port, data, mask):
     return leaf, True
 
 
+_KB = {}
+
+
 def ula_read(chk, r, key, port, mask):
     """result = AND of keyboard/extended/sinclair rows whose address line is low, xor 0x40 unless EAR"""
     ret = r.ret
@@ -449,7 +454,11 @@ def ula_read(chk, r, key, port, mask):
             return
         if b[0] == 0:
             rows.append(n)
-    want = set("ctl.%s[%d]" % (mx, n) for n in rows for mx in ("keyboard", "keyboard_extended", "keyboard_sinclair"))
+    # the three key matrices, located by role (what the three public senders write), not by field name
+    if "roles" not in _KB:
+        _KB["roles"] = cc.keyboard_roles(_KB["prog"], _KB["names"])
+    mats = [_KB["roles"][x][1] for x in ("main", "extended", "sinclair")]
+    want = set("%s[%d]" % (mx, n) for n in rows for mx in mats)
     chk.check(ok and got == want, "T-BITS/%s/rows" % key,
               "ULA read with rows %s low (EAR=%s) returns %s; documented AND of %s, bit 6 inverted when EAR is low" % (
                   rows, ear, tm.show(ret), sorted(want)))
